@@ -352,6 +352,24 @@ def i6(ctx, rid):
         ctx.ok(rid, 'regeneration-uses-push', rg.where(), 'headers scanned from the blob are inserted through IndexStruct::push')
     else:
         ctx.bad(rid, 'regeneration-uses-push', rg.where(), 'index regeneration does not insert through IndexStruct::push')
+    # .. and it pushes every header the scan returned: nothing removes elements from the scanned list before the push loop
+    drops = []
+    bodies = [rg] + [prog.fns[x] for x in prog.family(prog.fns[rg.id].root) if x != rg.id]
+    for c in rg.calls:
+        for t in prog.resolve(c):
+            g = prog.body_of(t) if t in prog.fns else None
+            if g is not None and g.file == rg.file and g not in bodies and prog.fns[g.id].root != 'blob::core::RawRecords::load' and 'RawRecords' not in g.id:
+                bodies.append(g)
+    for g in bodies:
+        for c in g.calls:
+            if c.bb in g.reachable() and c.name in ('dedup', 'dedup_by', 'dedup_by_key', 'retain', 'retain_mut', 'truncate', 'drain', 'pop', 'remove', 'swap_remove', 'split_off', 'filter', 'skip', 'take', 'step_by', 'skip_while', 'take_while') \
+               and ('record::record::Header' in c.full):
+                drops.append(c)
+    if drops:
+        ctx.bad(rid, 'regeneration-keeps-every-header', drops[0].where(), 'index regeneration removes scanned headers before they are pushed (`%s`): records that are intact in the blob (two versions of a key with one timestamp ..) are neither served nor quarantined after the rebuild' % drops[0].name)
+    else:
+        ctx.ok(rid, 'regeneration-keeps-every-header', rg.where(), 'every scanned header is pushed')
+    n += 1
     if n < 3:
         raise core.AnchorLost('header map writers: %d' % n)
 
